@@ -29,6 +29,8 @@ Streams
      as expat, and agree with expat on damaged variants of it (second root, text outside the root, white space before
      the declaration, missing end tag, undeclared tts prefix, no declaration, other quotes / standalone); and on 200
      (3 000) generated, mostly malformed XML declarations (order, quotes, Eq, S, version / encoding / standalone values).
+     The <style> dictionaries of the captured tree (insertion order) == DfxpSkelHead.style_elems of the set's style table
+     (request 716; main and legacy writer).
 Every R / D / H violation record carries the pickled caption set(s): `./check C07 --replay` re-runs it.
 """
 import re
@@ -621,7 +623,7 @@ def stream_skeleton(ctx, acc, docs):
     """docs: list of (inp, rp, out, captured skeleton)"""
     rng = ctx.rng
     reqs, plan = [], []
-    for inp, rp, out, sk in docs:
+    for inp, rp, out, sk, table in docs:
         if len(out) > 60000:
             acc.count("K_document_longer_than_60000_characters(not sent)")
             continue
@@ -635,6 +637,12 @@ def stream_skeleton(ctx, acc, docs):
             continue
         reqs.append((714, sk[1]))
         plan.append(("render", inp, rp, out, None))
+        if table is not None:
+            # the <style> dictionaries of the tree (insertion order) against DfxpSkelHead.style_elems of the style table
+            reqs.append((716, table))
+            plan.append(("styling", inp, rp, sk[1][1], None))
+        else:
+            acc.count("K_styling_of_single_positioning_writer(text-align removed first: not compared)")
         reqs.append((715, out))
         plan.append(("parse", inp, rp, out, None))
         if rng.random() < 0.15:
@@ -643,6 +651,15 @@ def stream_skeleton(ctx, acc, docs):
                 plan.append(("damaged", inp, rp, text, label))
     for (kind, inp, rp, text, label), r in zip(plan, oracle_batch(reqs)):
         acc.res["evaluations"] += 1
+        if kind == "styling":
+            if r == text:
+                acc.count("K_styling_sections_of_the_tree_equal_the_model(DfxpSkelHead.style_elems)")
+                acc.count("K_style_elements_in_those", len(text))
+            else:
+                acc.res["disagreements"].append(dict({"stream": "K-styling", "input": inp, "what": "the <style> attribute dictionaries of the "
+                                                 "tree (insertion order) differ from DfxpSkelHead.style_elems of the style table",
+                                                 "model": r, "impl": text}, **rp))
+            continue
         if kind == "render":
             if r == text:
                 acc.count("K_documents_rendered_by_the_model_equal_the_output_byte_for_byte")
@@ -1283,7 +1300,7 @@ def stream_documents(ctx, acc, kdocs=None):
                 acc.count("D_scc_generated_captions_with_several_layouts",
                           sum(1 for l in langs for c in cs.get_captions(l) if len({id(n.layout_info) for n in c.nodes}) > 1))
             if kdocs is not None:
-                kdocs.append((inp, rp, out.v, sk))
+                kdocs.append((inp, rp, out.v, sk, [[sid, content_pairs(st)] for sid, st in cs.get_styles()] if wname != "single" else None))
             if judge_document(acc, cs, wname, kw, force, out.v, inp, rp):
                 acc.res["nontrivial"].add(("D", src, wname, out.v))
                 acc.count("D_ok_" + src)
